@@ -185,6 +185,17 @@ def call(I, callee, args, st):
             return True, none()
         raise Unmodelled("Iterator::next on %r" % type(it))
 
+    if re.match(r"^core::slice::<impl \[.*\]>::as_ptr$", c) or re.match(r"^core::slice::<impl \[.*\]>::as_mut_ptr$", c):
+        used("slice::as_ptr")
+        s = as_slice(args[0])
+        return True, Ref(s.lst, s.start, s.tag)
+    if re.match(r"^(std|core)::ptr::(const_ptr|mut_ptr)::<impl \*(const|mut) .*>::(add|offset)$", c):
+        used("ptr::add (raw pointer arithmetic inside one allocation)")
+        p, n = args
+        if not isinstance(p, Ref) or not isinstance(p.c, list) or is_sym(n):
+            raise Unmodelled("pointer arithmetic on %r" % type(p))
+        return True, Ref(p.c, p.k + n, p.tag)
+
     # ---- x86 intrinsics (lane-wise, from Intel's definitions); FMA = a*b+c
     m = re.match(r"^_mm(256)?_setzero_(ps|pd)$", c)
     if m:
